@@ -160,6 +160,13 @@ func c20Mappings(level int) []c20Mapping {
 			{ID: ids[2], Package: "example.com/m/q", Output: "q/c.go"}, {ID: ids[3], Package: "example.com/m/q", Output: "q/d.go"}}
 		return c
 	}})
+	// mappings that name only an output file (or an output file and a root type) for an id: the package is the default one
+	ms = append(ms, c20Mapping{"output-only-mappings", func(ids []string) genlab.Cfg {
+		c := base()
+		c.Output = "dflt/out.go"
+		c.Mappings = []genlab.Mapping{{ID: ids[0], Output: "dflt/a.go"}, {ID: ids[1], Output: "dflt/b.go", Root: "RootOfB"}}
+		return c
+	}})
 	if level >= 1 {
 		ms = append(ms,
 			c20Mapping{"one-file", func(ids []string) genlab.Cfg { c := base(); c.Output = "all/one.go"; return c }},
@@ -496,6 +503,9 @@ func c20TypeCheck(chk *gocheck.Checker, cfg genlab.Cfg, st obsState) string {
 	for _, m := range cfg.Mappings {
 		if m.Output != "" {
 			pkgOf[m.Output] = m.Package
+			if m.Package == "" {
+				pkgOf[m.Output] = cfg.Package
+			}
 		}
 	}
 	byPkg := map[string]map[string]string{}
